@@ -38,7 +38,18 @@ def enum_plans(tier):
     th = tier == "thorough"
     # every history of connection attempts of each outcome followed by silence long enough for the workers to exit
     return [dict(cfg="B", depth=9 if th else 8, maxtime=9 if th else 8, alpha=["ceaok"], faults=True, maxconn=2),
-            dict(cfg="A", depth=9 if th else 8, maxtime=9 if th else 8, alpha=["cerok", "garbage"], faults=False, maxconn=1)]
+            dict(cfg="A", depth=9 if th else 8, maxtime=9 if th else 8, alpha=["cerok", "garbage"], faults=False, maxconn=1),
+            # a peer with two connections: requests answered over either, then the connections end in every order
+            dict(cfg="A", depth=5 if th else 4, maxtime=1, alpha=["req1", "req2"], faults=True, maxconn=2, prefix=two_conn_prefix()),
+            # the peer stops reading with output queued for it, then the connection closes itself (undecodable bytes) or is lost
+            dict(cfg="A", depth=7 if th else 6, maxtime=7 if th else 6, alpha=["stall", "req1", "garbage"], faults=True, maxconn=1,
+                 prefix=two_conn_prefix()[:1] + two_conn_prefix()[2:3])]
+
+
+def two_conn_prefix():
+    from .. import nodetrace as nt
+    cer = nt.M("CE", True, 1, 1, oh="p1.r1", auth=[4])
+    return [{"a": "connect"}, {"a": "connect"}, {"a": "feed", "c": 1, "ms": [cer]}, {"a": "feed", "c": 2, "ms": [cer]}]
 
 
 # ---------------------------------------------------------------------- scaling cycles
